@@ -87,15 +87,47 @@ requests:
     postprocessors:
       - type: assert/response
         body: ['"result":"ok"']
+  - name: page
+    method: GET
+    uri: /page/{{.request.auth.preprocessor.u.id}}
+    tag: page
+    headers:
+      X-Html: "<{{.request.auth.preprocessor.u.id}}>"
+    templater:
+      type: html
+    postprocessors:
+      - type: var/xpath
+        mapping:
+          x: "//div[@id='x']"
+          items: "//li[@class='i']"
+      - type: var/header
+        mapping:
+          ct: Content-Type|lower|replace(text,TEXT)
+          au: Authorization|substr(7,12)|upper
+      - type: assert/response
+        headers:
+          Content-Type: html
+        status_code: 200
+        size:
+          val: 10
+          op: ">"
+  - name: after
+    method: POST
+    uri: /after/{{.request.page.postprocessor.x}}
+    tag: after
+    headers:
+      X-Items: "{{.request.page.postprocessor.items}}"
+      X-Au: "{{.request.page.postprocessor.au}}"
+    body: '{"ct":"{{.request.page.postprocessor.ct}}"}'
 scenarios:
   - name: s1
     weight: 1
     min_waiting_time: 0
-    requests: ["auth(1)", "list(2)"]
+    requests: ["auth(1)", "page(1)", "list(2)", "after(1)"]
   - name: s2
     weight: 1
     min_waiting_time: 0
-    requests: ["auth(1)", "list(1)"]
+    requests: ["auth(1)", "list(1)", "page(2)"]
 `
 }
 
